@@ -165,13 +165,21 @@ pub(super) fn sub2(a: &mut [BigDigit], b: &[BigDigit]) {
     let (b, done) = (false, 0);
 
     let mut borrow = b as u8;
+    #[cfg(num_bigint_verif)]
+    if done > 0 {
+        crate::verif_probe::hit(5);
+    }
 
     for (a, b) in a_lo[done..].iter_mut().zip(b_lo[done..].iter()) {
+        #[cfg(num_bigint_verif)]
+        crate::verif_probe::hit(6);
         borrow = sbb(borrow, *a, *b, a);
     }
 
     if borrow != 0 {
         for a in a_hi {
+            #[cfg(num_bigint_verif)]
+            crate::verif_probe::hit(7);
             borrow = sbb(borrow, *a, 0, a);
             if borrow == 0 {
                 break;
@@ -422,5 +430,29 @@ impl CheckedSub for BigUint {
             Equal => Some(Self::ZERO),
             Greater => Some(self.sub(v)),
         }
+    }
+}
+
+#[cfg(num_bigint_verif)]
+pub mod verif {
+    //! Verification-only wrappers around private functions.
+    use alloc::vec::Vec;
+    pub fn sub2(mut a: Vec<u64>, b: &[u64]) -> Vec<u64> {
+        super::sub2(&mut a, b);
+        a
+    }
+    pub fn sub2rev(a: &[u64], mut b: Vec<u64>) -> Vec<u64> {
+        super::sub2rev(a, &mut b);
+        b
+    }
+    pub fn sub2rev_raw(a: &[u64], mut b: Vec<u64>) -> (Vec<u64>, u8) {
+        let c = super::__sub2rev(a, &mut b);
+        (b, c)
+    }
+    pub fn schoolbook_sub(mut a: Vec<u64>, b: &[u64], size: usize) -> (Vec<u64>, bool, usize) {
+        assert!(size <= a.len() && size <= b.len());
+        let (c, done) =
+            unsafe { super::schoolbook_sub_assign_x86_64(a.as_mut_ptr(), b.as_ptr(), size) };
+        (a, c, done)
     }
 }
